@@ -18,7 +18,8 @@ MANIFEST = {
             'parent-before-child orders through both add paths, interleaved with reads of the per-block unspent set, the '
             'lazily cached per-key balances and the wallet balance on old and new snapshots; every stored block in every '
             'receiver is compared with a replay-from-root reference ledger, and every snapshot taken earlier is '
-            're-fingerprinted after later additions. Sampling over trees, orders and read timings.',
+            're-fingerprinted after later additions. Sampling over trees, orders and read timings.'
+            ' Half of the receivers install every state in a real ChainManager (set_coinstate) and read what it serves; a wallet builds spends against current and old snapshots between deliveries and balances/references are re-checked right after.',
     'note': 'Trusted: reference replay (refmodel/rules.py), repo serializers for ids; scrypt stand-in; hollow base or genesis root.',
 }
 
